@@ -285,6 +285,24 @@ def uf(fname, args):
     return Poly({(i,): 1})
 
 
+def define(p, threshold):
+    """Let-abstraction: a polynomial with more than `threshold` terms is replaced by a hash-consed 'def' atom
+    (normalised so that scalar multiples share one atom).  The defining equation a = p is an axiom that the
+    first (abstract) query drops and the refined query includes, exactly like sqrt / recip."""
+    if threshold is None or len(p.t) <= threshold:
+        return p
+    lead = min(p.t)
+    c = p.t[lead]
+    if c != 1:
+        inv = _norm(Fraction(1) / Fraction(c))
+        q = Poly({m: _norm(v * inv) for m, v in p.t.items()})
+    else:
+        q = p
+    i = CTX.atom("def", q.key(), q)
+    r = Poly({(i,): 1})
+    return r if c == 1 else r * c
+
+
 def pmax(a, b):
     a, b = as_poly(a), as_poly(b)
     if a.t == b.t:
@@ -601,7 +619,13 @@ def const_array(x, kind=None):
             v = xf[i].item()
             p = cache.get(v)
             if p is None:
-                p = cache[v] = Poly.const(v)
+                if isinstance(v, float) and not math.isfinite(v):
+                    # nan / inf constants (e.g. the unreachable branch of a where): an unconstrained atom, so an
+                    # obligation it reaches cannot be discharged silently
+                    p = CTX.var("NONFINITE")
+                else:
+                    p = Poly.const(v)
+                cache[v] = p
             flat[i] = p
     elif kind == "bool":
         for i in range(flat.size):
